@@ -151,4 +151,84 @@ theorem verifyCRC32C_eq (bs : Bytes) (x : Nat) : Model.verifyCRC32C bs x = (x ==
   simp only [crcFold_eq]
   exact nat_beq_comm _ _
 
+/-! ### error detection: the register update is injective, so a change confined to one byte is always detected -/
+
+theorem crcStep1_zero (z : W32) (h : crcStep1 z = 0#32) : z = 0#32 := by
+  unfold crcStep1 at h
+  cases hz : z.getLsbD 0
+  · rw [hz] at h
+    simp only [Bool.false_eq_true, if_false] at h
+    apply BitVec.eq_of_getLsbD_eq
+    intro i hi
+    cases i with
+    | zero => simpa using hz
+    | succ j =>
+      have := congrArg (fun v => v.getLsbD j) h
+      simp only [BitVec.getLsbD_ushiftRight] at this
+      rw [show j + 1 = 1 + j by omega]
+      simpa using this
+  · rw [hz] at h
+    simp only [if_true] at h
+    have := congrArg (fun v => v.getLsbD 31) h
+    simp only [BitVec.getLsbD_xor, BitVec.getLsbD_ushiftRight] at this
+    have h32 : z.getLsbD (1 + 31) = false := BitVec.getLsbD_of_ge z 32 (by omega)
+    rw [h32] at this
+    have hp : crcPoly.getLsbD 31 = true := by decide
+    rw [hp] at this
+    simp at this
+
+theorem xor_eq_zero_imp (x y : W32) (h : x ^^^ y = 0#32) : x = y := by
+  have := congrArg (fun v => v ^^^ y) h
+  simpa [BitVec.xor_assoc] using this
+
+theorem crcStep1_inj (x y : W32) (h : crcStep1 x = crcStep1 y) : x = y := by
+  apply xor_eq_zero_imp
+  apply crcStep1_zero
+  rw [crcStep1_xor, h, BitVec.xor_self]
+
+theorem crcIter_inj (n : Nat) (x y : W32) (h : crcIter n x = crcIter n y) : x = y := by
+  induction n with
+  | zero => exact h
+  | succ n ih =>
+    simp only [crcIter, Nat.repeat] at h ih
+    exact ih (crcStep1_inj _ _ h)
+
+theorem xor_right_inj (c x y : W32) (h : c ^^^ x = c ^^^ y) : x = y := by
+  have := congrArg (fun v => c ^^^ v) h
+  simpa [← BitVec.xor_assoc] using this
+
+theorem xor_left_inj (c d x : W32) (h : c ^^^ x = d ^^^ x) : c = d := by
+  have := congrArg (fun v => v ^^^ x) h
+  simpa [BitVec.xor_assoc] using this
+
+theorem crcByte_inj_reg (c d : W32) (b : UInt8) (h : crcByte c b = crcByte d b) : c = d :=
+  xor_left_inj _ _ _ (crcIter_inj 8 _ _ h)
+
+theorem crcByte_inj_byte (c : W32) (x y : UInt8) (h : crcByte c x = crcByte c y) : x = y := by
+  have h1 := xor_right_inj _ _ _ (crcIter_inj 8 _ _ h)
+  have h2 := congrArg BitVec.toNat h1
+  simp only [BitVec.toNat_ofNat] at h2
+  have hx := x.toNat_lt
+  have hy := y.toNat_lt
+  rw [Nat.mod_eq_of_lt (by omega), Nat.mod_eq_of_lt (by omega)] at h2
+  exact UInt8.toNat_inj.mp h2
+
+theorem crcFeed_inj (bs : Bytes) (c d : W32) (h : crcFeed c bs = crcFeed d bs) : c = d := by
+  unfold crcFeed at h
+  induction bs generalizing c d with
+  | nil => exact h
+  | cons b bs ih => exact crcByte_inj_reg _ _ b (ih _ _ h)
+
+/-- CRC-32C detects every change confined to one byte (in particular every single-bit flip) -/
+theorem crc32c_byte_change (pre post : Bytes) (x y : UInt8) (h : x ≠ y) :
+    crc32c (pre ++ x :: post) ≠ crc32c (pre ++ y :: post) := by
+  intro he
+  unfold crc32c at he
+  have h1 := BitVec.eq_of_toNat_eq he
+  have h2 := xor_left_inj _ _ _ h1
+  unfold crcFeed at h2
+  simp only [List.foldl_append, List.foldl_cons] at h2
+  have h3 := crcFeed_inj post _ _ h2
+  exact h (crcByte_inj_byte _ _ _ h3)
+
 end PgVerif.Proofs
